@@ -22,7 +22,8 @@ RULE = ("history phase: 1-2 committers x 2-5 commits (appends, deletes, expiries
         "well-formed name of a file that never existed (version below / above the latest), the right name with "
         "trailing newline / spaces, a STALE committed version, or a legacy numeric pointer next to a legacy-named copy "
         "of the latest version. A fresh process then runs a seeded subsequence of {load_table, create_table(other "
-        "schema), append, GC(grace 0 after 2 h), reopen}. Oracle: the table resolves to the latest committed version "
+        "schema), append, GC(grace 0 after 2 h), reopen} - or, in a third of the runs, ONE long-lived handle meets the unusable "
+        "pointer twice with a commit through another handle in between. Oracle: the table resolves to the latest committed version "
         "(uuid, snapshot list, rows), is not re-initialised, the next commit refines the latest committed version, GC "
         "deletes nothing it references, and no never-committed version is surfaced. Distinct = SHA-1 of write/pointer "
         "events + pointer class; non-trivial = uncommitted metadata files existed or the pointer was unusable.")
@@ -69,7 +70,7 @@ def gen(rng: random.Random, tier: str, idx: int) -> dict:
     if after[0] not in ("load", "create_other", "append"):
         after.insert(0, rng.choice(["load", "create_other", "append"]))
     return {"backend": backend, "actors": actors, "faults": faults, "pointer": POINTERS[idx % len(POINTERS)],
-            "after": after, "policy": common.gen_policy(rng, 800)}
+            "after": after, "policy": common.gen_policy(rng, 800), "long_lived": rng.random() < 0.35}
 
 
 def shrink(plan: dict):
@@ -109,6 +110,42 @@ def _put_file(w: world.World, rel: str, content: bytes, t: float) -> None:
         os.utime(p, (t, t))
     else:
         w.store.bucket(w.bucket)[f"{w.prefix}/{rel}"] = Obj(content, t, "damage")
+
+
+def _damage(w, ptr, latest_name, latest_ver, committed, view, tnow):
+    """Replace the pointer by the chosen class. Returns the stale name used (stale class) or None."""
+    if ptr == "missing":
+        _write_pointer(w, None, tnow)
+    elif ptr == "empty":
+        _write_pointer(w, b"", tnow)
+    elif ptr == "whitespace":
+        _write_pointer(w, b"  \n\t ", tnow)
+    elif ptr == "noise":
+        _write_pointer(w, bytes((i * 37 + 11) % 256 for i in range(40)), tnow)
+    elif ptr == "badutf8":
+        _write_pointer(w, b"v3-\xff\xfe\xfd.metadata.json", tnow)
+    elif ptr == "legacy_nothing":
+        _write_pointer(w, str(latest_ver).encode(), tnow)
+    elif ptr == "named_missing_low":
+        _write_pointer(w, b"v0-deadbeef.metadata.json", tnow)
+    elif ptr == "named_missing_high":
+        _write_pointer(w, f"v{latest_ver + 3}-deadbeef.metadata.json".encode(), tnow)
+    elif ptr == "trailing_newline":
+        _write_pointer(w, latest_name.encode() + b"\n", tnow)
+    elif ptr == "trailing_spaces":
+        _write_pointer(w, b" " + latest_name.encode() + b"  \r\n", tnow)
+    elif ptr == "stale":
+        older = [n for n in committed[:-1] if view.exists(f"metadata/{n}")]
+        if older:
+            name = older[len(older) // 2]
+            _write_pointer(w, name.encode(), tnow)
+            w.sim.probe("stale_pointer")
+            return name
+    elif ptr == "legacy_layout":
+        _put_file(w, f"metadata/v{latest_ver}.metadata.json", view.read(f"metadata/{latest_name}"), tnow)
+        _write_pointer(w, str(latest_ver).encode(), tnow)
+        committed.append(f"v{latest_ver}.metadata.json")
+    return None
 
 
 def execute(plan: dict, scratch: str, replay: Optional[dict] = None) -> dict:
@@ -151,36 +188,8 @@ def execute(plan: dict, scratch: str, replay: Optional[dict] = None) -> dict:
     # ---- damage the pointer
     tnow = sim.true_time()
     stale_name = None
-    if ptr == "missing":
-        _write_pointer(w, None, tnow)
-    elif ptr == "empty":
-        _write_pointer(w, b"", tnow)
-    elif ptr == "whitespace":
-        _write_pointer(w, b"  \n\t ", tnow)
-    elif ptr == "noise":
-        _write_pointer(w, bytes((i * 37 + 11) % 256 for i in range(40)), tnow)
-    elif ptr == "badutf8":
-        _write_pointer(w, b"v3-\xff\xfe\xfd.metadata.json", tnow)
-    elif ptr == "legacy_nothing":
-        _write_pointer(w, str(latest_ver).encode(), tnow)
-    elif ptr == "named_missing_low":
-        _write_pointer(w, b"v0-deadbeef.metadata.json", tnow)
-    elif ptr == "named_missing_high":
-        _write_pointer(w, f"v{latest_ver + 3}-deadbeef.metadata.json".encode(), tnow)
-    elif ptr == "trailing_newline":
-        _write_pointer(w, latest_name.encode() + b"\n", tnow)
-    elif ptr == "trailing_spaces":
-        _write_pointer(w, b" " + latest_name.encode() + b"  \r\n", tnow)
-    elif ptr == "stale":
-        older = [n for n in committed[:-1] if view.exists(f"metadata/{n}")]
-        if older:
-            stale_name = older[len(older) // 2]
-            _write_pointer(w, stale_name.encode(), tnow)
-            sim.probe("stale_pointer")
-    elif ptr == "legacy_layout":
-        _put_file(w, f"metadata/v{latest_ver}.metadata.json", view.read(f"metadata/{latest_name}"), tnow)
-        _write_pointer(w, str(latest_ver).encode(), tnow)
-        committed.append(f"v{latest_ver}.metadata.json")
+    damage = lambda: _damage(w, ptr, latest_name, latest_ver, committed, view, tnow)   # noqa: E731
+    stale_name = damage()
     if ptr not in ("trailing_newline", "trailing_spaces", "intact", "legacy_layout") and not (ptr == "stale" and not stale_name):
         sim.probe("pointer_unusable")
     # ---- fresh process
@@ -221,6 +230,53 @@ def execute(plan: dict, scratch: str, replay: Optional[dict] = None) -> dict:
             return
         if rows != tuple(sorted(expect["rows"], key=repr)):
             bad("P.rows", f"{what}: scan returns {len(rows)} rows, committed data has {len(expect['rows'])}")
+
+    def do_append(t, tag):
+        rows = world.mkrows(tag, 2)
+        nfl = len(w2.flips)
+        t.append_records(rows)
+        if len(w2.flips) != nfl + 1:
+            bad("P.append_flips", f"append after pointer damage produced {len(w2.flips) - nfl} flips")
+            return False
+        fl = w2.flips[-1]
+        pn = ir.parse_hint(fl["new"])
+        N = w2.reader.state_of(w2.view(), pn[1], pn[0])
+        probs = [p for p in model.refine(expect["base"], N, {"appends": [rows]}) if p[0] not in ("R.mlog",)]
+        if probs:
+            bad("P.commit_not_on_latest", f"a commit after pointer damage is not the latest committed version + the "
+                                          f"append: {probs[:2]}")
+            return False
+        expect["base"] = N
+        expect["rows"] = tuple(list(expect["rows"]) + [ir.row_key(r) for r in rows])
+        expect["appended"] = True
+        expect["latest"] = pn
+        committed.append(pn[1])
+        return True
+
+    def body_long_lived():
+        """A long-lived handle meets the damaged pointer twice, with a commit through another handle in between."""
+        import datashard
+        try:
+            tA = datashard.load_table(w2.table_path)
+            check_handle(tA, "long-lived handle, first pointer loss")
+            if V:
+                return
+            tB = datashard.load_table(w2.table_path)
+            if not do_append(tB, "other"):
+                return
+            ver, name = expect["latest"]
+            _damage(w2, ptr, name, ver, committed, w2.view(), sim2.true_time())
+            w2.resync_hint()
+            sim2.probe("second_pointer_loss")
+            check_handle(tA, "long-lived handle, second pointer loss (another handle committed in between)")
+            if V:
+                return
+            do_append(tA, "again")
+        except (core.SimDead, core.SimKilled):
+            raise
+        except Exception as e:
+            bad("P.op_raised", f"long-lived handle sequence raised {type(e).__name__}: {str(e)[:200]}")
+            V[-1]["sig"] = f"P.op_raised|long_lived|{type(e).__name__}{sig_tail}"
 
     def body():
         import datashard
@@ -282,7 +338,8 @@ def execute(plan: dict, scratch: str, replay: Optional[dict] = None) -> dict:
                 bad("P.op_raised", f"{step} after pointer damage raised {type(e).__name__}: {str(e)[:200]}")
                 V[-1]["sig"] = f"P.op_raised|{step}|{type(e).__name__}{sig_tail}"
                 return
-    sim2.spawn(sim2.proc("post"), "post", body)
+    use_ll = bool(plan.get("long_lived")) and pclass == "unusable"
+    sim2.spawn(sim2.proc("post"), "post", body_long_lived if use_ll else body)
     ph2.run()
     if sim2.probes.get("flock_acquired") is None:
         pass
